@@ -207,3 +207,139 @@ def who_assets_rule(rep, F):
             continue
         rep.violation("WHO-assets", "%s|%s" % (base, ",".join(sorted(ops))), "%s mutates a map of asset quantities directly (%s): merging bundles by hand overwrites the quantity of an asset held on both sides instead of adding it (use Value::checked_add / MultiAsset::add)" % (base, ", ".join(sorted(ops))), {})
     rep.floor("direct mutations of asset-quantity maps inventoried", 5, n)
+
+
+def arith_unused_rule(rep, F, file_prefixes=None):
+    """the result of a checked arithmetic call is a NEW value: `x.checked_add(&y)?;` as a statement computes and forgets it"""
+    import json as _json
+    import re as _re
+    rep.rule("ARITH-unused", "the value returned by checked_add / checked_sub / checked_mul / clamped_sub on BigNum, Value, MultiAsset, BigInt, Int, Rational is returned or read afterwards - never computed and dropped (these methods do not mutate their receiver)")
+
+    def reads_of(fn, needle):
+        n = 0
+        for bb in fn["bbs"]:
+            if bb["c"]:
+                continue
+            for st in bb["st"]:
+                if st[1] == "=" and needle in _json.dumps(st[3]):
+                    n += 1
+            t = bb["t"]
+            if t[1] == "call" and needle in _json.dumps(t[3]):
+                n += 1
+            if t[1] == "switch" and needle in _json.dumps(t[2]):
+                n += 1
+        return n
+
+    tot = 0
+    for fid, fn in F.fns.items():
+        if "/tests/" in fn["file"] or F.is_derived(fid):
+            continue
+        if file_prefixes and not fn["file"].startswith(tuple(file_prefixes)):
+            continue
+        for c in F.calls(fid):
+            to = c.to or ""
+            if not _re.search(r"::(checked_add|checked_sub|checked_mul|clamped_sub|checked_div)$", to):
+                continue
+            if not any(k in to for k in ("BigNum", "Value", "BigInt", "Int::", "MultiAsset", "Rational")):
+                continue
+            tot += 1
+            rep.inst("ARITH-unused")
+            t = fn["bbs"][c.bb]["t"]
+            dest = t[4]
+            if dest == "_0" or dest.startswith("_0|"):
+                continue
+            br = None
+            for c2 in F.calls(fid):
+                if (c2.to or "").endswith("Try>::branch"):
+                    a = fn["bbs"][c2.bb]["t"][3][0]
+                    if a[0] in ("c", "m") and a[1] == dest:
+                        br = fn["bbs"][c2.bb]["t"][4]
+            if br:
+                # locals that receive the unwrapped value; the value is used iff one of them (transitively through plain moves) is read
+                used = False
+                frontier = []
+                for bb_ in fn["bbs"]:
+                    for st_ in bb_["st"]:
+                        if st_[1] == "=" and ('"%s|d:Continue' % br) in _json.dumps(st_[3]):
+                            if st_[3][0] == "use" and "|" not in st_[2] and st_[2] != "_0":
+                                frontier.append(st_[2])
+                            else:
+                                used = True
+                    t_ = bb_["t"]
+                    if t_[1] in ("call", "switch") and ('"%s|d:Continue' % br) in _json.dumps(t_[2:4]):
+                        used = True
+                seen_l = set()
+                while frontier and not used:
+                    l_ = frontier.pop()
+                    if l_ in seen_l:
+                        continue
+                    seen_l.add(l_)
+                    for bb_ in fn["bbs"]:
+                        if bb_["c"]:
+                            continue
+                        for st_ in bb_["st"]:
+                            if st_[1] == "=" and (('"%s"' % l_) in _json.dumps(st_[3]) or ('"%s|' % l_) in _json.dumps(st_[3])):
+                                if st_[3][0] == "use" and "|" not in st_[2] and st_[2] != "_0":
+                                    frontier.append(st_[2])
+                                else:
+                                    used = True
+                        t_ = bb_["t"]
+                        if t_[1] in ("call", "switch") and (('"%s"' % l_) in _json.dumps(t_[2:4]) or ('"%s|' % l_) in _json.dumps(t_[2:4])):
+                            used = True
+            else:
+                used = reads_of(fn, '"%s"' % dest) + reads_of(fn, '"%s|' % dest) > 0
+            if not used:
+                rep.violation("ARITH-unused", "%s|%s" % (F.key(fid), to.rsplit("::", 1)[-1]), "%s computes %s and drops the result (%s): the receiver is not modified by this method, so the amount is silently not accumulated" % (F.key(fid), "::".join(to.rsplit("::", 2)[-2:]), facts.loc_str(t[0], fn)), {})
+    rep.floor("checked arithmetic calls inspected for a dropped result", 15 if file_prefixes else 100, tot)
+
+
+ENCODING_DETAIL_FIELDS = {"serialization_format", "original_bytes", "definite_encoding", "prefer_alonzo_format", "cbor_set_type"}
+
+
+def ord_eq_rule(rep, F):
+    """a type that is a key in ordered containers (Ord) and in hashed / de-duplicating ones (Eq + Hash) must compare the same content in
+    all three; only audited encoding-detail fields may make Ord / Hash finer than Eq"""
+    rep.rule("ORD-EQ", "for every struct with a hand-written PartialEq, Ord or Hash: the fields equality reads are also read by Ord and Hash, and whatever Ord / Hash read beyond equality is an audited encoding-detail field (serialization_format, original_bytes, definite_encoding, prefer_alonzo_format, cbor_set_type) - a builder that keys by Ord and emits through an Eq/Hash de-duplicating set otherwise counts entries it does not emit")
+
+    def impl_of(adt, prefix):
+        for im in F.impls:
+            if (im.get("trait") or "").startswith(prefix) and (im.get("self_adt") or im["self_ty"]) == adt and "/tests/" not in im.get("file", ""):
+                return im
+        return None
+
+    n = 0
+    for adt, a in sorted(F.adts.items()):
+        if a["kind"] != "struct":
+            continue
+        eq, od, hs = impl_of(adt, "std::cmp::PartialEq"), impl_of(adt, "std::cmp::Ord"), impl_of(adt, "std::hash::Hash")
+        if not eq or not (od or hs):
+            continue
+        if eq.get("derive") and (not od or od.get("derive")) and (not hs or hs.get("derive")):
+            continue
+        fs = {f["name"] for f in a["variants"][0]["fields"]}
+
+        def basis(im, mname):
+            if im is None:
+                return None
+            if im.get("derive"):
+                return set(fs)
+            mid = [m["id"] for m in im["methods"] if m["name"] == mname]
+            if not mid or mid[0] not in F.fns:
+                return None
+            return {f for (x, f) in fields_read(F, mid[0], depth=2) if x == adt} & fs
+        e, o, h = basis(eq, "eq"), basis(od, "cmp"), basis(hs, "hash")
+        if e is None:
+            continue
+        n += 1
+        rep.inst("ORD-EQ")
+        short = adt.rsplit("::", 1)[-1]
+        for nm, b in (("Ord", o), ("Hash", h)):
+            if b is None:
+                continue
+            miss = e - b
+            extra = b - e - ENCODING_DETAIL_FIELDS
+            if miss:
+                rep.violation("ORD-EQ", "%s|%s|eq-only|%s" % (short, nm, ",".join(sorted(miss))), "%s: equality compares %s but %s does not read %s (it reads %s): two values can be equal yet ordered / hashed apart, or different yet collapse, so a collection keyed one way and de-duplicated the other way counts entries it does not emit" % (short, sorted(e), nm, sorted(miss), sorted(b)), {})
+            if extra:
+                rep.violation("ORD-EQ", "%s|%s|extra|%s" % (short, nm, ",".join(sorted(extra))), "%s: %s also reads %s, which equality ignores and which is not an audited encoding-detail field" % (short, nm, sorted(extra)), {})
+    rep.floor("structs with hand-written Eq / Ord / Hash compared", 20, n)
